@@ -289,7 +289,7 @@ func TestC20(t *testing.T) {
 	n := stats.N(300, 800)
 	st.Set("requested_checks", n)
 	stats.Check(t, n, 20, func(rt *rapid.T) {
-		w, l, _ := RunHistory(rt, st, HistOpts{Focus: []string{"C20"}, Features: GenFeatures, Steps: 28, Scripts: false, Reverts: true, Metadata: true, MaxPostings: 3})
+		w, l, _ := RunHistory(rt, st, HistOpts{Focus: []string{"C20"}, Features: GenFeatures, Steps: 28, Scripts: false, Reverts: true, Metadata: true, MaxPostings: 3, SecondLedger: true})
 		defer w.Close()
 		for i := 0; i < 10; i++ {
 			resource := rapid.SampledFrom([]string{"transactions", "transactions", "accounts", "accounts", "volumes", "aggregated", "logs"}).Draw(rt, "resource")
